@@ -31,22 +31,23 @@ Definition cfg_update_edge (c : list edge) (e e' : edge) : list edge := cfg_add 
 Definition add_function_block_aux (s : st) (b f : nat) : st :=
   set_funcs s (aset f (nadd b (func_blocks s f)) (fblocks s)) (fentries s) (fnames s) (aset b f (fbb s)).
 
+(* for table in (function_entries, function_blocks): if table: blocks = table.get(f); if blocks: discard; anything left? *)
+Definition rf_upd (b f : nat) (tab : list (nat * list nat)) : list (nat * list nat) * bool :=
+  match tab with
+  | [] => (tab, false)
+  | _ => match aget f tab with
+         | None | Some [] => (tab, false)
+         | Some l => let l' := ndel b l in (aset f l' tab, match l' with [] => false | _ => true end)
+         end
+  end.
+
 Definition remove_function_block_aux (s : st) (b : nat) : st :=
   match aget b (fbb s) with
   | None => s
   | Some f =>
       let fbb' := adel b (fbb s) in
-      (* for table in (function_entries, function_blocks): if table: blocks = table.get(f); if blocks: discard *)
-      let upd (tab : list (nat * list nat)) : list (nat * list nat) * bool :=
-        match tab with
-        | [] => (tab, false)
-        | _ => match aget f tab with
-               | None | Some [] => (tab, false)
-               | Some l => let l' := ndel b l in (aset f l' tab, match l' with [] => false | _ => true end)
-               end
-        end in
-      let '(fe, left1) := upd (fentries s) in
-      let '(fb, left2) := upd (fblocks s) in
+      let '(fe, left1) := rf_upd b f (fentries s) in
+      let '(fb, left2) := rf_upd b f (fblocks s) in
       if left1 || left2 then set_funcs s fb fe (fnames s) fbb'
       else set_funcs s (adel f fb) (adel f fe) (adel f (fnames s)) fbb'
   end.
